@@ -1,3 +1,3 @@
 SPECIFICATION Spec
 CONSTANTS M = 5 V = 3 Sample = 300 OneVersion = FALSE OlderMain = TRUE
-INVARIANTS NoPanic SelectedIsMaxSeen Confluent Sufficient Minimal
+INVARIANTS NoPanic SelectedIsMaxSeen Confluent Sufficient Minimal PrunedBelowFull
